@@ -27,6 +27,7 @@ import CaddyModel.C13.Caddyfile
 import CaddyModel.C13.UrlLemmas
 import CaddyModel.C13.NetipLemmas
 import CaddyModel.C13.LifecycleLemmas
+import CaddyModel.C13.Cli
 import CaddyModel.Gen.AdminGate
 import CaddyModel.Gen.Glue
 import CaddyModel.Gen.ConfigLocks
@@ -601,6 +602,60 @@ theorem remote_admin_glue_matches_source :
     Gen.remoteAdminKeyAppends = assumedRemoteKeyAppends := by
   decide
 
+-- ================================================================ the client side: caddy stop | reload | …
+
+/-- **which endpoint the CLI talks to**: `--address` wins whatever the config says; without it the
+    config's `admin.listen` if set; else the default address. -/
+theorem cli_address_resolution (flag l dflt : Bytes) :
+    (flag ≠ [] → ∀ c, determineAdminAddr flag c dflt = flag) ∧
+    (l ≠ [] → determineAdminAddr [] (some l) dflt = l) ∧
+    determineAdminAddr [] (some []) dflt = dflt ∧ determineAdminAddr [] none dflt = dflt := by
+  refine ⟨?_, ?_, ?_, ?_⟩
+  · intro h c; simp [determineAdminAddr, h]
+  · intro h; simp [determineAdminAddr, h]
+  · simp [determineAdminAddr]
+  · simp [determineAdminAddr]
+
+/-- **the instance's own CLI is an authorised client of its endpoint** (client glue and server glue
+    agree): on a specific, non-loopback TCP address with the default origins, the request
+    `AdminAPIRequest` builds for that address — Host and Origin both `JoinHostPort(host, port)` —
+    passes the gate, with or without `enforce_origin`.  (For loopback addresses the defaults are the
+    three aliases localhost / ::1 / 127.0.0.1, so this holds for those three spellings only:
+    an endpoint on 127.0.0.2 refuses its own CLI unless `origins` names it — not a clause of the
+    property, which is about refusals.) -/
+theorem cli_request_passes_own_gate (cfg : AdminCfg) (h : Bytes) (p : Nat) (ip : IpClass) (modulePats : List Bytes) (r : Req)
+    (horig : cfg.origins = none)
+    (hspec : SpecificAddress ⟨sTcp, h, p, ip⟩) (hloop : Addr.isLoopback ⟨sTcp, h, p, ip⟩ = false)
+    (hhost : r.host = joinHostPort h (natToDec p)) (hup : r.upgrade = [])
+    (hor : r.origin = sHttpPrefix ++ r.host) (hurl : r.originUrl = ⟨true, [104, 116, 116, 112], r.host⟩) :
+    Passes (newAdminHandler cfg ⟨sTcp, h, p, ip⟩ false modulePats) r := by
+  obtain ⟨hu, hf, hw⟩ := hspec
+  have hne : r.origin ≠ [] := by rw [hor]; simp [sHttpPrefix]
+  have hallowed : (newAdminHandler cfg ⟨sTcp, h, p, ip⟩ false modulePats).allowed = [⟨[], r.host⟩] := by
+    simp [newAdminHandler, allowedOrigins, horig, hu, hf, defaultOrigins, hloop, Addr.joinHostPort, hhost]
+  have heh : (newAdminHandler cfg ⟨sTcp, h, p, ip⟩ false modulePats).enforceHost = true := by
+    simp [newAdminHandler, hu, hf, hw]
+  have hrem : (newAdminHandler cfg ⟨sTcp, h, p, ip⟩ false modulePats).remote = none := by simp [newAdminHandler]
+  have heo : (newAdminHandler cfg ⟨sTcp, h, p, ip⟩ false modulePats).enforceOrigin = cfg.enforceOrigin := by
+    simp [newAdminHandler]
+  unfold Passes gate aclGate
+  rw [hrem]
+  simp only
+  unfold localGate localGateWith
+  have hws : wsCheck r = false := by simp [wsCheck, hup]
+  have hch : checkHost (newAdminHandler cfg ⟨sTcp, h, p, ip⟩ false modulePats) r = true := by
+    simp [checkHost, hallowed]
+  have hgo : getOrigin r = ⟨true, [104, 116, 116, 112], r.host⟩ := by simp [getOrigin, hne, hurl]
+  have hos : originStr r ≠ [] := by simp [originStr, hne]
+  have hoa : originAllowed (newAdminHandler cfg ⟨sTcp, h, p, ip⟩ false modulePats) ⟨true, [104, 116, 116, 112], r.host⟩ = true := by
+    simp [originAllowed, hallowed, originMatches]
+  rw [heo]
+  cases hc : cfg.enforceOrigin with
+  | false => exact ⟨0, by simp [hws, heh, hch]⟩
+  | true =>
+    refine ⟨if r.method = sOPTIONS then 2 else 1, ?_⟩
+    simp [hws, heh, hch, hgo, hos, hoa]
+
 -- ================================================================ lifecycle: histories of config loads
 
 /-- **after every load the only admin servers still listening are those of the CURRENT config** —
@@ -860,6 +915,13 @@ example : (serveReal count (newAdminHandler exRemoteCfg exRemoteAddr true []) []
 -- remote_unlisted_identity_401: hypotheses hold for a client presenting only key 7
 example : (newAdminHandler exRemoteCfg exRemoteAddr true []).remote = some exAcl ∧
     (exRemoteReq "GET" "/config/" [[7]]).tls = some [[7]] ∧ ¬ KeyListed exAcl [[7]] := by decide
+-- cli_*: `caddy reload --address …`, the request for 192.168.1.5:2019, and a unix socket
+example : determineAdminAddr (str "127.0.0.1:2999") (some (str "localhost:2019")) (str "d") = str "127.0.0.1:2999"
+    ∧ determineAdminAddr [] (some (str "localhost:2019")) (str "d") = str "localhost:2019"
+    ∧ cliRequestFor (str "192.168.1.5:2019") = some (sTcp, str "192.168.1.5:2019", str "192.168.1.5:2019", str "http://192.168.1.5:2019")
+    ∧ cliRequestFor (str "unix//run/caddy.sock") = some (sUnix, str "/run/caddy.sock", str "127.0.0.1", [])
+    ∧ cliRequestFor (str "localhost:2019-2020") = none := by decide
+example : SpecificAddress ⟨sTcp, str "192.168.1.5", 2019, .other⟩ ∧ Addr.isLoopback ⟨sTcp, str "192.168.1.5", 2019, .other⟩ = false := by decide
 -- lifecycle: a history that switches the remote endpoint on (key 0), changes its list (key 1), then off
 def exHist : List LoadCfg :=
   [⟨.listen 0, some (2, [⟨[0], []⟩])⟩, ⟨.listen 0, some (2, [⟨[1], []⟩])⟩, ⟨.listen 1, none⟩]
